@@ -8,6 +8,12 @@ tools/checks/c19.py additionally derives the PrimFloat twin of `src_param_check`
 _UPD1 = r"auto&\s+update\(const string_t& name, parameter_t::range_t<tscalar>& param, tvalue value_\)\s*\{"
 _UPD2 = (r"auto&\s+update\(const string_t& name, parameter_t::pair_range_t<tscalar>& param, tvalue1 value1_, "
          r"tvalue2 value2_\)\s*\{")
+# the convertibility check (fix 0c6dfeb) is the FIRST statement of both overloads, before any static_cast
+_CONV1 = r"\s*critical\(!::convertible<tscalar>\(value_\),[^;]*?\);"
+_CONV2 = r"\s*critical\(!::convertible<tscalar>\(value1_\) \|\| !::convertible<tscalar>\(value2_\),[^;]*?\);"
+_CONVF = (r"bool\s+convertible\(\[\[maybe_unused\]\]\s*const tvalue value\)\s*\{\s*if constexpr \(std::is_integral_v<tscalar> && "
+          r"std::is_floating_point_v<tvalue>\)\s*\{\s*static_assert\(std::is_signed_v<tscalar>\);\s*constexpr auto lowest = "
+          r"static_cast<tvalue>\(std::numeric_limits<tscalar>::lowest\(\)\);")
 _UPDE = r"auto&\s+update\(const string_t& name, parameter_t::enum_t& param, string_t value\)\s*\{"
 
 KERNELS = [
@@ -27,17 +33,17 @@ KERNELS = [
        (r"param\.m_domain\.end\(\)", "len")],
       [("pos", "Z"), ("len", "Z")], "parameter", ["C19"]),
     K("src_range_reject", "src/parameter.cpp",
-      _UPD1 + r"\s*const auto value = static_cast<tscalar>\(value_\);\s*critical\((.*?),\s*\"parameter \(",
+      _UPD1 + _CONV1 + r"\s*const auto value = static_cast<tscalar>\(value_\);\s*critical\((.*?),\s*\"parameter \(",
       [(r"::nano::isfinite\(value\)", "fin"),
        (r"::check\(param\.m_mincomp, param\.m_min, value\)", "cmin"),
        (r"::check\(param\.m_maxcomp, value, param\.m_max\)", "cmax")],
       [("fin", "bool"), ("cmin", "bool"), ("cmax", "bool")], "parameter", ["C19"]),
     # the statement right after the check stores the *converted* value and nothing else happens before the return
     K("src_range_assign", "src/parameter.cpp",
-      _UPD1 + r"\s*const auto value = static_cast<tscalar>\(value_\);\s*critical\([^;]*?\);\s*param\.m_value\s*=\s*(\w+);\s*return param;",
+      _UPD1 + _CONV1 + r"\s*const auto value = static_cast<tscalar>\(value_\);\s*critical\([^;]*?\);\s*param\.m_value\s*=\s*(\w+);\s*return param;",
       [], [("value", "Z")], "parameter", ["C19"]),
     K("src_pair_reject", "src/parameter.cpp",
-      _UPD2 + r"\s*const auto value1 = static_cast<tscalar>\(value1_\);\s*const auto value2 = static_cast<tscalar>\(value2_\);"
+      _UPD2 + _CONV2 + r"\s*const auto value1 = static_cast<tscalar>\(value1_\);\s*const auto value2 = static_cast<tscalar>\(value2_\);"
       r"\s*critical\((.*?),\s*\"parameter \(",
       [(r"::nano::isfinite\(value1\)", "fin1"), (r"::nano::isfinite\(value2\)", "fin2"),
        (r"::check\(param\.m_mincomp, param\.m_min, value1\)", "cmin"),
@@ -50,6 +56,21 @@ KERNELS = [
     K("src_pair_assign2", "src/parameter.cpp",
       _UPD2 + r"[^}]*?critical\([^;]*?\);\s*param\.m_value1\s*=\s*\w+;\s*param\.m_value2\s*=\s*(\w+);\s*return param;",
       [], [("value1", "Z"), ("value2", "Z")], "parameter", ["C19"]),
+    # ---- fix 0c6dfeb: a floating value goes to an integer kind only when finite and -2^63 <= v < 2^63 ----------
+    K("src_convertible", "src/parameter.cpp",
+      _CONVF + r"\s*return\s+(.*?);",
+      [(r"std::isfinite\(value\)", "fin"), (r"value >= lowest", "ge_lowest"), (r"value < -lowest", "lt_neg_lowest")],
+      [("fin", "bool"), ("ge_lowest", "bool"), ("lt_neg_lowest", "bool")], "parameter", ["C19"]),
+    K("src_convertible_other", "src/parameter.cpp",
+      _CONVF + r"\s*return\s+[^;]*;\s*\}\s*else\s*\{\s*return\s+(.*?);",
+      [], [], "parameter", ["C19"]),
+    K("src_range_noconv", "src/parameter.cpp",
+      _UPD1 + r"\s*critical\((.*?),\s*\"parameter \(",
+      [(r"::convertible<tscalar>\(value_\)", "conv")], [("conv", "bool")], "parameter", ["C19"]),
+    K("src_pair_noconv", "src/parameter.cpp",
+      _UPD2 + r"\s*critical\((.*?),\s*\"parameter \(",
+      [(r"::convertible<tscalar>\(value1_\)", "conv1"), (r"::convertible<tscalar>\(value2_\)", "conv2")],
+      [("conv1", "bool"), ("conv2", "bool")], "parameter", ["C19"]),
     # serialisation flags of the comparison operators (LE = 1, LT = 0)
     K("src_make_comp", "src/parameter.cpp",
       r"auto\s+make_comp\(uint32_t flag\)\s*\{\s*return\s+(.*?);\s*\}",
